@@ -28,6 +28,34 @@ def stepF (line : String) : String :=
       if !s.WF || q.length != s.nq || qd.length != s.nv then "bad-args" else
       joinToks ((Mj.kinematicsVel s q qd).flatMap fun x => x.1.toks ++ x.2.toks)
     | none => "bad-args"
+  | "scanfwd" :: ts =>
+    -- Layer B tie: integer-valued injective step  y = (31·parent + a) mod 1000003, roots: a
+    let p : Rd (List Int × List Int) := do let ps ← Rd.list Rd.int; let as ← Rd.list Rd.int; pure (ps, as)
+    match Rd.run p ts with
+    | some (ps, as) =>
+      if ps.length != as.length then "bad-args" else
+      joinToks ((Kin.scanFwd (fun (par : Option Int) (a : Int) =>
+        match par with | none => a % 1000003 | some y => (31 * y + a) % 1000003) ps as).map toString)
+    | none => "bad-args"
+  | "scanrev" :: ts =>
+    -- y = (a + 37·carry) mod 1000003 ; carry none (deepest level) counts as 7
+    let p : Rd (List Int × List Int) := do let ps ← Rd.list Rd.int; let as ← Rd.list Rd.int; pure (ps, as)
+    match Rd.run p ts with
+    | some (ps, as) =>
+      if ps.length != as.length then "bad-args" else
+      joinToks ((Kin.scanRev (fun (c : Option Int) (a : Int) =>
+        match c with | none => (a + 7) % 1000003 | some y => (a + 37 * y) % 1000003) ps as).map toString)
+    | none => "bad-args"
+  | "slices" :: ts =>
+    -- Layer B tie: per-link (typ, Σ q-slice·weights, Σ qd-slice·weights)
+    let p : Rd (List LinkType × List Int × List Int) := do
+      let t ← Rd.linkTypes; let q ← Rd.list Rd.int; let qd ← Rd.list Rd.int; pure (t, q, qd)
+    match Rd.run p ts with
+    | some (t, q, qd) =>
+      let ins := Kin.linkSlices t q qd ([] : List (DofP Int))
+      let h := fun (xs : List Int) => (xs.foldl (fun (acc : Int × Int) x => (acc.1 * 10 + x, acc.2 + 1)) (0, 0)).1
+      joinToks (ins.flatMap fun l => [toString (h l.q), toString (h l.qd)])
+    | none => "bad-args"
   | "w2j" :: ts =>
     let p : Rd (Sys Float × List (Tf Float) × List (Motion Float)) := do
       let s ← Rd.sys; let x ← Rd.list Rd.tf; let xd ← Rd.list Rd.motion; pure (s, x, xd)
